@@ -223,3 +223,249 @@ Theorem column_first_refuted :
     patch_data_colfirst (Some argmin) [ch] 0 = Some [row] /\ own_centre_nearest row 0 = false /\
     patch_data (Some argmin) [ch] 0 = Some [] /\ patch_data (Some argmin) [ch] 1 = Some [row].
 Proof. exists {| recs := [[3#4; 1#4]]; col := Some [0%nat] |}, [3#4; 1#4]. vm_compute. repeat split. Qed.
+
+(* ================= the guard with any number of catalogs ================= *)
+Lemma lex_ltb_irrefl a : lex_ltb a a = false.
+Proof. induction a as [|x a IH]; simpl; [reflexivity|]. rewrite Nat.ltb_irrefl, Nat.eqb_refl, IH. reflexivity. Qed.
+
+Lemma lex_ltb_asym a : forall b, lex_ltb a b = true -> lex_ltb b a = false.
+Proof.
+  induction a as [|x a IH]; intros [|y b]; simpl; intro H; try reflexivity; try discriminate.
+  destruct (Nat.ltb_spec x y), (Nat.ltb_spec y x), (Nat.eqb_spec x y), (Nat.eqb_spec y x); simpl in *;
+    try lia; try discriminate; try reflexivity.
+  apply IH. exact H.
+Qed.
+
+Lemma lex_ge_trans a : forall b c, lex_ltb a b = false -> lex_ltb b c = false -> lex_ltb a c = false.
+Proof.
+  induction a as [|x a IH]; intros [|y b] [|z c]; simpl; intros H1 H2; try reflexivity; try discriminate.
+  destruct (Nat.ltb_spec x y), (Nat.ltb_spec y z), (Nat.ltb_spec x z),
+           (Nat.eqb_spec x y), (Nat.eqb_spec y z), (Nat.eqb_spec x z); simpl in *;
+    try lia; try discriminate; try reflexivity.
+  eapply IH; eassumption.
+Qed.
+
+Section SortDescP.
+  Context {A : Type} (key : A -> list nat).
+
+  Lemma insert_desc_perm x l : Permutation (insert_desc key x l) (x :: l).
+  Proof.
+    induction l as [|y r IH]; simpl; [apply Permutation_refl|].
+    destruct (lex_ltb (key x) (key y)); [|apply Permutation_refl].
+    eapply Permutation_trans; [apply perm_skip, IH|apply perm_swap].
+  Qed.
+
+  Theorem sort_desc_perm l : Permutation (sort_desc key l) l.
+  Proof.
+    induction l as [|x l IH]; simpl; [apply perm_nil|].
+    eapply Permutation_trans; [apply insert_desc_perm|apply perm_skip, IH].
+  Qed.
+
+  Inductive sorted_desc : list A -> Prop :=
+  | sd_nil : sorted_desc []
+  | sd_cons x l : (forall y, In y l -> lex_ltb (key x) (key y) = false) -> sorted_desc l -> sorted_desc (x :: l).
+
+  Lemma insert_desc_sorted x l : sorted_desc l -> sorted_desc (insert_desc key x l).
+  Proof.
+    induction 1 as [|y r Hy Hs IH]; simpl.
+    - constructor; [intros y []|constructor].
+    - destruct (lex_ltb (key x) (key y)) eqn:E.
+      + constructor; [|exact IH]. intros z Hz.
+        apply (Permutation_in _ (insert_desc_perm x r)) in Hz. destruct Hz as [<-|Hz].
+        * apply lex_ltb_asym. exact E.
+        * apply Hy. exact Hz.
+      + constructor; [|constructor; assumption]. intros z [<-|Hz]; [exact E|].
+        eapply lex_ge_trans; [exact E|apply Hy; exact Hz].
+  Qed.
+
+  Lemma sort_desc_sorted l : sorted_desc (sort_desc key l).
+  Proof. induction l as [|x l IH]; simpl; [constructor|apply insert_desc_sorted, IH]. Qed.
+
+  (* the first element of the sorted list has a maximal key *)
+  Theorem sort_desc_head_max l r o : sort_desc key l = r :: o -> forall x, In x l -> lex_ltb (key r) (key x) = false.
+  Proof.
+    intros E x Hx. pose proof (sort_desc_sorted l) as S. rewrite E in S. inversion S as [|? ? Hr _]; subst.
+    apply (Permutation_in _ (Permutation_sym (sort_desc_perm l))) in Hx. rewrite E in Hx.
+    destruct Hx as [<-|Hx]; [apply lex_ltb_irrefl|apply Hr; exact Hx].
+  Qed.
+End SortDescP.
+
+(* ... and among the positions with a maximal key it is the first one (stable sort) *)
+Lemma sort_desc_seq_head_first (f : nat -> list nat) n : forall s h o,
+  sort_desc f (seq s n) = h :: o -> forall j, (s <= j < h)%nat -> lex_ltb (f j) (f h) = true.
+Proof.
+  induction n as [|n IH]; intros s h o E j Hj; simpl in E; [discriminate|].
+  destruct (sort_desc f (seq (S s) n)) as [|h' o'] eqn:E'; simpl in E.
+  - injection E as <- _. lia.
+  - destruct (lex_ltb (f s) (f h')) eqn:L; injection E as <- _; [|lia].
+    destruct (Nat.eq_dec j s) as [->|Hne]; [exact L|]. eapply IH; [exact E'|lia].
+Qed.
+
+Lemma check_order_spec key cats ref others :
+  check_order key cats = ref :: others ->
+  (ref < length cats)%nat /\
+  (forall j, (j < length cats)%nat -> lex_ltb (key (gnth cats ref)) (key (gnth cats j)) = false) /\
+  (forall j, (j < ref)%nat -> lex_ltb (key (gnth cats j)) (key (gnth cats ref)) = true) /\
+  (forall j, In j others <-> (j < length cats)%nat /\ j <> ref).
+Proof.
+  unfold check_order. intro E.
+  pose proof (sort_desc_perm (fun i => key (gnth cats i)) (seq 0 (length cats))) as P. rewrite E in P.
+  assert (Hin : forall j, In j (ref :: others) <-> (j < length cats)%nat).
+  { intro j. split; intro H.
+    - apply (Permutation_in _ P) in H. apply in_seq in H. lia.
+    - apply (Permutation_in _ (Permutation_sym P)). apply in_seq. lia. }
+  assert (ND : NoDup (ref :: others)) by (eapply Permutation_NoDup; [apply Permutation_sym, P|apply seq_NoDup]).
+  repeat split.
+  - apply Hin. left. reflexivity.
+  - intros j Hj. apply (sort_desc_head_max _ _ _ _ E). apply in_seq. lia.
+  - intros j Hj. eapply (sort_desc_seq_head_first (fun i => key (gnth cats i))); [exact E|lia].
+  - apply Hin. right. exact H.
+  - intros ->. inversion ND; subst. contradiction.
+  - intros [H1 H2]. apply Hin in H1. destruct H1 as [H1|H1]; [congruence|exact H1].
+Qed.
+
+Lemma within_spec rtol dists radii :
+  within rtol dists radii = true <-> forall dr, In dr (combine dists radii) -> fst dr <= rtol * snd dr.
+Proof.
+  unfold within. rewrite forallb_forall. split; intros H dr Hin; specialize (H dr Hin); apply Qle_bool_iff; exact H.
+Qed.
+
+Lemma guard_is_within ids1 ids2 dists radii rtol :
+  guard ids1 ids2 dists radii rtol = nlist_eqb ids1 ids2 && within rtol dists radii.
+Proof. reflexivity. Qed.
+
+Lemma ids_match_spec cats :
+  ids_match cats = true -> forall j, (j < length cats)%nat -> g_ids (gnth cats j) = g_ids (gnth cats 0).
+Proof.
+  destruct cats as [|c r]; simpl; intros H j Hj; [lia|].
+  destruct j as [|j]; [reflexivity|]. unfold gnth. simpl.
+  apply nlist_eqb_eq. apply (proj1 (forallb_forall _ _) H). apply nth_In. lia.
+Qed.
+
+(* acceptance: every catalog has the ids of the first one, and there is a reference catalog - one
+   whose records-per-patch tuple is maximal, the first such in the call - such that the centres of
+   every other catalog are within rtol times the reference catalog's own radii *)
+Theorem guard_many_refuses key cats dt rtol :
+  cats <> [] -> guard_many_by key cats dt rtol = true ->
+  (forall j, (j < length cats)%nat -> g_ids (gnth cats j) = g_ids (gnth cats 0)) /\
+  exists ref, (ref < length cats)%nat /\
+    (forall j, (j < length cats)%nat -> lex_ltb (key (gnth cats ref)) (key (gnth cats j)) = false) /\
+    (forall j, (j < ref)%nat -> lex_ltb (key (gnth cats j)) (key (gnth cats ref)) = true) /\
+    forall j, (j < length cats)%nat -> j <> ref ->
+      forall dr, In dr (combine (tab dt ref j) (g_radii (gnth cats ref))) -> fst dr <= rtol * snd dr.
+Proof.
+  intros Hne H. unfold guard_many_by in H. apply andb_true_iff in H as [Hids H].
+  split; [apply ids_match_spec; exact Hids|].
+  destruct (check_order key cats) as [|ref others] eqn:E.
+  - exfalso. unfold check_order in E.
+    pose proof (sort_desc_perm (fun i => key (gnth cats i)) (seq 0 (length cats))) as P. rewrite E in P.
+    apply Permutation_nil in P. destruct cats; [congruence|discriminate].
+  - destruct (check_order_spec _ _ _ _ E) as (H1 & H2 & H3 & H4).
+    exists ref. repeat split; try assumption.
+    intros j Hj Hjr. apply within_spec.
+    unfold guard_ref, check_fixed in H. apply (proj1 (forallb_forall _ _) H).
+    apply in_map. apply H4. split; assumption.
+Qed.
+
+(* with rtol <= 1: centres farther apart than the reference catalog's patch radius are refused *)
+Theorem guard_many_within_radius key cats dt rtol :
+  cats <> [] -> 0 <= rtol -> rtol <= 1 ->
+  (forall c r, In c cats -> In r (g_radii c) -> 0 <= r) ->
+  guard_many_by key cats dt rtol = true ->
+  exists ref, (ref < length cats)%nat /\
+    (forall j, (j < length cats)%nat -> lex_ltb (key (gnth cats ref)) (key (gnth cats j)) = false) /\
+    forall j, (j < length cats)%nat -> j <> ref ->
+      forall dr, In dr (combine (tab dt ref j) (g_radii (gnth cats ref))) -> fst dr <= snd dr.
+Proof.
+  intros Hne H0 H1 Hpos H. destruct (guard_many_refuses _ _ _ _ Hne H) as (_ & ref & Hr & Hmax & _ & Hd).
+  exists ref. repeat split; try assumption. intros j Hj Hjr dr Hin.
+  eapply Qle_trans; [apply (Hd j Hj Hjr dr Hin)|].
+  assert (0 <= snd dr).
+  { destruct dr as [d r]. apply in_combine_r in Hin. simpl. eapply Hpos; [|exact Hin]. apply nth_In. exact Hr. }
+  rewrite <- (Qmult_1_l (snd dr)) at 2. apply Qmult_le_compat_r; assumption.
+Qed.
+
+(* two catalogs: the guard of the pair, the radii being those of the catalog that sorts first *)
+Theorem guard_many_two key a b dt rtol :
+  guard_many_by key [a; b] dt rtol =
+  if lex_ltb (key a) (key b) then guard (g_ids b) (g_ids a) (tab dt 1 0) (g_radii b) rtol
+  else guard (g_ids b) (g_ids a) (tab dt 0 1) (g_radii a) rtol.
+Proof.
+  unfold guard_many_by, check_order, guard_ref, check_fixed, guard, within, gnth. simpl.
+  destruct (lex_ltb (key a) (key b)); simpl; rewrite !andb_true_r; reflexivity.
+Qed.
+
+(* the decision does not depend on the order in which the other catalogs are looked at *)
+Theorem check_fixed_perm rtol radii others others' :
+  Permutation others others' -> check_fixed rtol radii others = check_fixed rtol radii others'.
+Proof.
+  intro P. unfold check_fixed.
+  destruct (forallb (fun d => within rtol d radii) others') eqn:E.
+  - apply forallb_forall. intros d Hd. apply (proj1 (forallb_forall _ _) E). eapply Permutation_in; eassumption.
+  - destruct (forallb (fun d => within rtol d radii) others) eqn:E'; [|reflexivity].
+    rewrite <- E. symmetry. apply forallb_forall. intros d Hd. apply (proj1 (forallb_forall _ _) E').
+    eapply Permutation_in; [apply Permutation_sym|]; eassumption.
+Qed.
+
+(* a k-catalog measurement is accepted iff every (reference, other) pair is *)
+Theorem check_fixed_pairwise rtol radii others :
+  check_fixed rtol radii others = true <-> forall d, In d others -> within rtol d radii = true.
+Proof. unfold check_fixed. apply forallb_forall. Qed.
+
+(* what the code's reference passes, some admissible reference passes *)
+Theorem guard_many_some_ref cats dt rtol :
+  cats <> [] -> guard_many cats dt rtol = true -> guard_some_ref cats dt rtol = true.
+Proof.
+  intros Hne H. unfold guard_many, guard_many_by in H. apply andb_true_iff in H as [Hids H].
+  unfold guard_some_ref. rewrite Hids. simpl.
+  destruct (check_order g_nrec cats) as [|ref others] eqn:E.
+  - exfalso. unfold check_order in E.
+    pose proof (sort_desc_perm (fun i => g_nrec (gnth cats i)) (seq 0 (length cats))) as P. rewrite E in P.
+    apply Permutation_nil in P. destruct cats; [congruence|discriminate].
+  - destruct (check_order_spec _ _ _ _ E) as (H1 & H2 & _ & H4).
+    apply existsb_exists. exists ref. split; [apply in_seq; lia|].
+    apply andb_true_iff. split.
+    + apply orb_true_iff. left. unfold maximal_by. apply forallb_forall. intros c Hc.
+      apply negb_true_iff. destruct (In_nth _ _ gnone Hc) as (j & Hj & <-). apply H2. exact Hj.
+    + unfold guard_ref, check_fixed in *. apply forallb_forall. intros d Hd.
+      apply in_map_iff in Hd as (j & <- & Hj). apply filter_In in Hj as [Hj Hjr].
+      apply (proj1 (forallb_forall _ _) H). apply in_map. apply H4.
+      apply in_seq in Hj. apply negb_true_iff, Nat.eqb_neq in Hjr. lia.
+Qed.
+
+(* ---- the loop that tests against radii inflated by the catalogs looked at before ---- *)
+Lemma qmax_ge_l a b : a <= qmax a b.
+Proof. unfold qmax. destruct (Qleb a b) eqn:E; [apply Qle_bool_iff; exact E|apply Qle_refl]. Qed.
+
+Lemma within_inflated rtol d : 0 <= rtol -> forall radii X,
+  within rtol d radii = true -> within rtol d (zipw qmax radii X) = true.
+Proof.
+  intro H0. unfold within. induction d as [|x d IH]; intros [|r radii] [|y X]; simpl; intro H; try reflexivity.
+  apply andb_true_iff in H as [H1 H2]. apply andb_true_iff. split; [|apply IH; exact H2].
+  apply Qle_bool_iff. apply Qle_bool_iff in H1. eapply Qle_trans; [exact H1|].
+  rewrite !(Qmult_comm rtol). apply Qmult_le_compat_r; [apply qmax_ge_l|exact H0].
+Qed.
+
+(* it accepts whatever the test against the reference's own radii accepts ... *)
+Theorem check_fixed_implies_running rtol : 0 <= rtol -> forall others radii,
+  check_fixed rtol radii (map fst others) = true -> check_running rtol radii others = true.
+Proof.
+  intro H0. induction others as [|[d r] rest IH]; intros radii H; simpl in *; [reflexivity|].
+  apply andb_true_iff in H as [H1 H2]. apply andb_true_iff. split; [exact H1|].
+  apply IH. unfold check_fixed in *. apply forallb_forall. intros d' Hd'.
+  apply within_inflated; [exact H0|]. apply (proj1 (forallb_forall _ _) H2). exact Hd'.
+Qed.
+
+(* ... but also a later catalog whose centres are three reference radii off, when a catalog
+   with extended patches was looked at before (reference radius 2/5, aligned catalog of radius 3,
+   then a catalog of radius 2/5 offset by 6/5) - and the answer depends on the order *)
+Theorem check_running_refuted :
+  exists radii others d r,
+    In (d, r) (combine (fst (nth 1 others ([], []))) radii) /\ d == 3 * r /\
+    check_fixed (1 # 2) radii (map fst others) = false /\
+    check_running (1 # 2) radii others = true /\
+    check_running (1 # 2) radii (rev others) = false.
+Proof.
+  exists [2 # 5], [([0], [3]); ([6 # 5], [2 # 5])], (6 # 5), (2 # 5).
+  split; [left; reflexivity|]. split; [reflexivity|]. repeat split; vm_compute; reflexivity.
+Qed.
